@@ -355,9 +355,16 @@ def rule_c18(an, res):
             for top in method_segments(an, cm, roles, single, res):
                 for b in ops.find_bodies(top, single):
                     ssum.add(body_summary(b, roles, subject_subst(b, single)))
+            tag = 'reached from %s::%s' % (cm.name, single.key())
+            if any(('G-UNKNOWN' in x and x.endswith(tag)) for x in list(an.incomplete) + list(res.incomplete)):
+                # the single-key form contains a construct the engine has no semantics for: nothing to compare the range form with
+                msg = 'G-UNKNOWN single-key sibling %s is not fully modelled reached from %s::%s' % (single.key(), cm.name, m.key())
+                if msg not in res.incomplete:
+                    res.incomplete.append(msg)
+                continue
             for top in method_segments(an, cm, roles, m, res):
-                if ops.empty_range_exit(top, m):
-                    res.ob('R-SIB-BODY', ok=True)       # empty range: no single operation to compare with
+                if ops.empty_range_exit(top, m) or (not ops.find_bodies(top, m) and ops.empty_container_exit(top, m)):
+                    res.ob('R-SIB-BODY', ok=True)       # empty range (or erase_range on an empty container): no single operation to compare with
                     continue
                 bodies = ops.find_bodies(top, m)
                 rsum = set()
@@ -386,12 +393,50 @@ def rule_c18(an, res):
                     site = site_of_seg(bodies[0].seg, m) if bodies else site_of_seg(top, m)
                     V(res, prop, 'R-SIB-BODY', cm, m.key(), 'loop body differs from %s: %s' % (single.key(), d[0]), site,
                       'per-element behaviour of %s is not that of %s; %s' % (m.key(), single.key(), d[1]))
+                check_range_exits(res, prop, cm, roles, m, top, bodies)
                 for lp, s2 in ops.bodiless_iterations(top):
                     res.ob('R-SIB-BODY', ok=False)
                     V(res, prop, 'R-SIB-BODY', cm, m.key(), 'a range element is handled without performing the single-key operation',
                       site_of_seg(s2, m), 'iteration path [%s] of %s never consults the index: its effects %s / outputs are not those of %s'
                       % (' '.join(s2.valuation()), m.key(), [e.kind for e in s2.state_effects()][:4], single.key()))
                 check_once(res, prop, cm, roles, m, single, top, an)
+
+
+def check_range_exits(res, prop, cm, roles, m, top, bodies):
+    """the per-element loop of a range method ends because the range is exhausted - or, for erase, because nothing is left to erase (the
+    container is empty, so every remaining key is a miss).  An extra conjunct in the loop condition that can end it earlier leaves
+    elements of the range unprocessed."""
+    from symex import root_of
+    loops = set(id(b.in_loop) for b in bodies if b.in_loop is not None)
+    for lp, segs in top.loops:
+        if id(lp) not in loops or lp.kind == 'range':
+            continue
+        for ex in top.loop_exits.get(id(lp), []):
+            if not lift.feasible(ex)[0]:
+                continue
+            bad = None
+            exhausted = False
+            for c in ex.conds:
+                raw = c[4]
+                rng_cmp = isinstance(raw, tuple) and len(raw) == 4 and raw[0] == 'cmp' and all(
+                    isinstance(x, tuple) and x and (x[0] in ('lv', 'p') or (x[0] == 'q' and x[1] in ('end', 'cend', 'size') and root_of(x[2])[0] == 'param')
+                                                   or (x[0] == 'q' and x[1] in ('size',) and isinstance(x[2], tuple) and x[2][:1] == ('var',)))
+                    for x in (raw[2], raw[3])) and any(isinstance(x, tuple) and x[:1] == ('lv',) and (len(x) < 5 or x[4] == 'param' or True) for x in (raw[2], raw[3]))
+                if c[0] in ('OTHER', 'LV_EQ') and rng_cmp and not any(is_ld(x) for x in (raw[2], raw[3])):
+                    if bool(c[5]) != (raw[1] in ('!=', '<')):
+                        exhausted = True
+                    continue
+                if c[0] == 'NONEMPTY' and c[2] is False and ops.kind_of(m) == 'ERASE':
+                    exhausted = True       # nothing left to erase
+                    continue
+                if c[0] in ('TRUE', 'PEEK', 'UPD_OK', 'INS_OK'):
+                    continue
+                bad = c
+            ok = bad is None and exhausted
+            res.ob('R-SIB-ONCE', ok=ok)
+            if not ok:
+                V(res, prop, 'R-SIB-ONCE', cm, m.key(), 'the range loop can stop before the end of the range', bad[3] if bad else site_of_seg(ex, m),
+                  'loop exit [%s]: ending the loop on this condition leaves the remaining elements of the range unprocessed' % ' '.join(ex.valuation()))
 
 
 def describe_diff(only_r, only_s):
@@ -832,6 +877,11 @@ def check_bind_update(res, prop, cm, roles, m, b):
                 good = is_ld(sid) and sid[2][0] == 'idx' and sid[2][2] == w.val
                 if not good:
                     good = any(x.kind == 'PERM_WR' and x.pos == w.val and x.val == sid for x in seg.effects)
+                if not good and is_ld(sid) and sid[2][0] == 'idx' and isinstance(sid[2][2], tuple) and sid[2][2][:1] == ('rng',) \
+                        and w.val == ('add', ld0(THIS(roles.part)), -1):
+                    # the slot was read at the drawn position and the path established that the draw is the last in-use position
+                    good = any(c[0] == 'IS_LAST_USED' and c[2] is True and isinstance(c[1][0], Ent) and c[1][0].kind == 'RANDPOS'
+                               and c[1][0].arg == sid[2][2][1] for c in seg.conds)
             else:
                 adds = [e for e in effs if e.kind == 'AUX_ADD' and e.aux == target and same_ent(e.ent, S)]
                 good = len(adds) == 1 and w.val == adds[0].res
